@@ -23,7 +23,8 @@ def run(ctx):
         return
     rows = wrows + rows
     ctx.rule = ("strings/patterns: every string of length <= 2 over * ? [ ] ! ^ - \\ / . a b : ( | ) @ +, the (seed mod 8)-th "
-                "eighth of length 3 (thorough: all of length <= 4), plus a pinned list of 2000 token strings (classes, groups, "
+                "eighth of length 3 (thorough: all of length <= 4), every ASCII rune except NUL/newline and a few multi-byte runes alone, "
+                "doubled, embedded and escaped, plus a pinned list of 2000 token strings (classes, groups, regexp-special literals, "
                 "multi-byte runes; seed rotates an eighth); each tested against all strings of length <= 3 over its runes, itself "
                 "and its unescaped form, with the plain matcher and the ExtendedOperators matcher; "
                 "non-trivial = distinct strings containing a metacharacter or backslash")
@@ -49,7 +50,7 @@ def run(ctx):
                  "go_hasq": sub[i]["hasq"], "go_hass": sub[i]["hass"], "kind": v} for i, v in res]
         ctx.leg("code:pattern.QuoteMeta/HasMeta vs Translate.quote_meta_glob/has_meta (vm_compute)", len(items), mism)
     # ---- oracle leg: in bash without extglob, QuoteMeta(s) matches exactly s (what C18_quotemeta_matches_only_self says of the spec)
-    osub = [r for r in rows[::(2 if quick else 10)] if r.get("strs")]
+    osub = [r for r in rows[::(2 if quick else 10)] if r.get("strs") and "1f" not in [r["hex"][i:i + 2] for i in range(0, len(r["hex"]), 2)]]
     items = [(bytes.fromhex(r["qhex"]).decode(), [bytes.fromhex(x).decode() for x in r["strs"]]) for r in osub]
     bits = C.run_bash(ctx, "case_noext", items)
     quoted = C.run_bash(ctx, "quoted", [(bytes.fromhex(r["hex"]).decode(), it[1]) for r, it in zip(osub, items)])
